@@ -268,6 +268,19 @@ def h_misc(ctx, what):
     ctx.check('the dead handler is unsubscribed', src._eventMixin_get_listener_count() == 2)
     del calls[:]; go()
     ctx.check('next delivery: survivors only', calls == ['dropper', 'tail'])
+  elif what == 'bulk_remove':
+    # removeListeners(list of ids): every listed subscription is gone afterwards, whichever of them are still live (solver-chosen subset was
+    # already removed one by one), the others stay; the result says whether anything was removed
+    calls = []
+    ids = [src.addListener(w.E1 if i != 2 else w.E2, (lambda e, i=i: calls.append(i)), priority=5 - i) for i in range(4)]
+    gone = [bool(ctx.bool('already_removed%d' % i)) for i in range(3)]
+    for i in range(3):
+      if gone[i]: ctx.check('single removal', src.removeListener(ids[i]) is True)
+    r = src.removeListeners(ids[:3])
+    ctx.check('removeListeners reports whether it removed anything', r is (not all(gone)))
+    ctx.check('only the unlisted subscription is left', src._eventMixin_get_listener_count() == 1)
+    src.raiseEvent(w.E1); src.raiseEvent(w.E2())
+    ctx.check('no listed handler is invoked any more, the unlisted one still is', calls == [3])
   elif what == 'noerrors_kinds':
     # error suppression holds for whatever a handler raises: ordinary errors, exceptions outside the Exception hierarchy (a handler calling
     # sys.exit(), a stray KeyboardInterrupt/GeneratorExit, a library's BaseException subclass), and for both raise forms; the failing handler
@@ -327,6 +340,6 @@ def obligations(tier):
   return [
     Obligation('O1_histories', h_history, [dict(plan=p, behs=behs) for p in plans], witnesses=('done',), max_decisions=20000,
                desc='invocation log == reference dispatcher over symbolic histories'),
-    Obligation('O2_misc', h_misc, [dict(what=x) for x in ('undeclared', 'weak', 'weak_during', 'noerrors_kinds', 'autobind')], witnesses=('done',),
+    Obligation('O2_misc', h_misc, [dict(what=x) for x in ('undeclared', 'weak', 'weak_during', 'noerrors_kinds', 'bulk_remove', 'autobind')], witnesses=('done',),
                desc='undeclared types rejected; weak handlers; autoBindEvents/removeListeners'),
   ]
